@@ -864,3 +864,437 @@ Proof.
     pose proof (I_x _ _ _ H1 a) as E. unfold own1 in E. rewrite Eo, Nat.eqb_refl in E. destruct (Z0 a). cbn in E. lia.
   - apply count_occ_all_zero. intros u. pose proof (I_s _ _ _ H1 u) as E. unfold shc in E. destruct (Z0 u). lia.
 Qed.
+
+(* ---------- C01, progress: what a state looks like when nothing can move ---------- *)
+Notation enabledW cf := (enabled glob loc (tstep cf)).
+Notation quiescentW cf := (quiescent glob loc (tstep cf)).
+
+(* blocked in a blocking acquisition of the mutex (actual mode sm) *)
+Definition blocked_on (cf : config) (l : loc) (sm : bool) : Prop :=
+  (exists h sh, at_ l = HAcq h ABlock sh /\ sm = sh && shcap cf) \/
+  (exists o gsh code, at_ l = GAcq o /\ wop_code cf o = Some (gsh, code) /\ sm = gsh && shcap cf).
+Definition blocked (cf : config) (l : loc) : Prop := exists sm, blocked_on cf l sm.
+
+Lemma acquire_none am sm t c g : acquire am sm t c g = None ->
+  obtainable sm g = false /\ (am = ABlock \/ (am = ATimed /\ c <> 2%nat)).
+Proof.
+  unfold acquire. destruct am; destruct (obtainable sm g) eqn:Eo; cbn; try discriminate; intros H; split; auto.
+  right. split; [reflexivity|]. destruct (Nat.eqb_spec c 2); [discriminate|assumption].
+Qed.
+
+Lemma idle_enabled cf t c g pr sl o : exists r, tstep cf t c g (Loc (o :: pr) Idle sl) = Some r.
+Proof.
+  unfold tstep. cbn [at_ prog slots].
+  repeat match goal with
+         | |- exists r, (match ?x with _ => _ end) = Some r => destruct x
+         | |- exists r, (if ?x then _ else _) = Some r => destruct x
+         | |- exists r, (let (_, _) := ?x in _) = Some r => destruct x
+         end; eexists; reflexivity.
+Qed.
+
+(* the only ways to be disabled: finished, or waiting for the mutex in a blocking acquisition *)
+Lemma disabled_shape cf t g l : locok cf l ->
+  tstep cf t 0 g l = None -> tstep cf t 2 g l = None ->
+  fin l = true \/ exists sm, blocked_on cf l sm /\ obtainable sm g = false.
+Proof.
+  intros [Hlen Hpc] H0 H2. destruct l as [pr p sl]. cbn [at_ slots] in *.
+  destruct p.
+  - destruct pr as [|o pr]; [left; reflexivity|]. destruct (idle_enabled cf t 0 g pr sl o) as [r Hr]. congruence.
+  - right. unfold tstep in H0, H2. cbn [at_ slots prog] in H0, H2.
+    destruct (acquire am (sh && shcap cf) t 0 g) as [[[g1 okk] e]|] eqn:A0.
+    { destruct (slot sl h) as [old|]; [destruct (hown old)|]; discriminate. }
+    destruct (acquire am (sh && shcap cf) t 2 g) as [[[g1 okk] e]|] eqn:A2.
+    { destruct (slot sl h) as [old|]; [destruct (hown old)|]; discriminate. }
+    destruct (acquire_none _ _ _ _ _ A2) as [Ho [->|[_ Hc]]]; [|congruence].
+    exists (sh && shcap cf). split; [left; exists h, sh; split; reflexivity|exact Ho].
+  - exfalso. destruct Hpc as [old [Ho _]]. unfold tstep in H0. cbn [at_ slots prog] in H0. rewrite Ho in H0.
+    destruct (release _ _ _ _). discriminate.
+  - exfalso. destruct Hpc as [[old [Ho _]] _]. unfold tstep in H0. cbn [at_ slots prog] in H0. rewrite Ho in H0.
+    destruct (release _ _ _ _). discriminate.
+  - right. unfold tstep in H0. cbn [at_ slots prog] in H0.
+    destruct (wop_code cf o) as [[gsh code]|] eqn:Ew; [|congruence].
+    destruct (acquire ABlock (gsh && shcap cf) t 0 g) as [[[g1 okk] e]|] eqn:A0; [discriminate|].
+    destruct (acquire_none _ _ _ _ _ A0) as [Ho _].
+    exists (gsh && shcap cf). split; [right; exists o, gsh, code; repeat split; assumption|exact Ho].
+  - exfalso. destruct Hpc as [Hne _]. unfold tstep in H0. cbn [at_ slots prog] in H0.
+    destruct code as [|i rest]; [congruence|].
+    destruct (m_thrown _); [destruct fr; discriminate|].
+    destruct (negb (m_done _)); [discriminate|].
+    destruct (match m_rest _ with Some c' => c' | None => rest end); destruct fr; discriminate.
+  - exfalso. unfold tstep in H0. cbn [at_ slots prog] in H0.
+    destruct (wop_code cf o) as [[gsh code]|] eqn:Ew; [|congruence].
+    destruct (release _ _ _ _). discriminate.
+Qed.
+
+Lemma blocked_holds_in_slots cf l : fin l = true \/ blocked cf l ->
+  lx cf l = cnt (hx cf) (slots l) /\ lsh cf l = cnt (hs cf) (slots l).
+Proof.
+  unfold lx, lsh. intros [Hf|[sm [[h [sh [Hp _]]]|[o [gsh [code [Hp _]]]]]]].
+  - unfold fin in Hf. destruct (at_ l); try discriminate. auto.
+  - rewrite Hp. auto.
+  - rewrite Hp. auto.
+Qed.
+
+Definition holds_in_slots (cf : config) (l : loc) : Prop := (1 <= cnt (hx cf) (slots l) + cnt (hs cf) (slots l))%nat.
+
+Lemma quiescent_shape_l cf progs s t l :
+  R cf progs s -> quiescentW cf s -> nth_error (thr s) t = Some l ->
+  fin l = true \/
+  (blocked cf l /\ exists a la, nth_error (thr s) a = Some la /\ holds_in_slots cf la /\ (fin la = true \/ blocked cf la)).
+Proof.
+  intros HR HQ Hl. destruct (R_inv _ _ _ HR) as [H1 _].
+  assert (Hshape : forall u lu, nth_error (thr s) u = Some lu ->
+            fin lu = true \/ exists sm, blocked_on cf lu sm /\ obtainable sm (gl s) = false).
+  { intros u lu Hu. apply (disabled_shape cf u (gl s) lu (I_ok _ _ _ H1 _ _ Hu)).
+    - destruct (tstep cf u 0 (gl s) lu) as [r|] eqn:E; [|reflexivity]. exfalso. apply (HQ u 0%nat); [lia|]. exists lu, r. auto.
+    - destruct (tstep cf u 2 (gl s) lu) as [r|] eqn:E; [|reflexivity]. exfalso. apply (HQ u 2%nat); [lia|]. exists lu, r. auto. }
+  destruct (Hshape t l Hl) as [Hf|[sm [Hb Ho]]]; [left; exact Hf|right].
+  split; [exists sm; exact Hb|].
+  (* somebody holds the mutex *)
+  assert (exists a, (1 <= lx cf (locof (thr s) a) + lsh cf (locof (thr s) a))%nat) as [a Ha].
+  { unfold obtainable, free_s, free_x in Ho.
+    destruct (owner (gl s)) as [a|] eqn:Eo.
+    - exists a. rewrite (I_x _ _ _ H1 a). unfold own1. rewrite Eo, Nat.eqb_refl. cbn. lia.
+    - destruct sm; [discriminate|]. destruct (sharers (gl s)) as [|a r] eqn:Es; [discriminate|].
+      exists a. rewrite (I_s _ _ _ H1 a). unfold shc. rewrite Es. cbn. destruct (Nat.eq_dec a a); [lia|congruence]. }
+  unfold locof in Ha. destruct (nth_error (thr s) a) as [la|] eqn:Ea; [|cbn in Ha; lia].
+  exists a, la. split; [exact Ea|].
+  assert (fin la = true \/ blocked cf la) as Hfb.
+  { destruct (Hshape a la Ea) as [?|[sm' [? _]]]; [left; assumption|right; exists sm'; assumption]. }
+  destruct (blocked_holds_in_slots cf la Hfb) as [E1 E2]. unfold holds_in_slots. split; [lia|exact Hfb].
+Qed.
+
+(* absent handles kept for ever and blocking acquisitions made while holding a handle, everything finishes *)
+Definition keeps_or_nests (cf : config) (s : sysW) : Prop :=
+  exists a la, nth_error (thr s) a = Some la /\ holds_in_slots cf la /\ (fin la = true \/ blocked cf la).
+Lemma no_deadlock_l cf progs s : R cf progs s -> quiescentW cf s -> ~ keeps_or_nests cf s ->
+  all_fin glob loc fin s = true.
+Proof.
+  intros HR HQ Hk. unfold all_fin. apply forallb_forall. intros l Hin.
+  apply In_nth_error in Hin. destruct Hin as [t Hl].
+  destruct (quiescent_shape_l _ _ _ _ _ HR HQ Hl) as [Hf|[_ [a [la [Ha [Hh Hfb]]]]]]; [exact Hf|].
+  exfalso. apply Hk. exists a, la. auto.
+Qed.
+
+(* a thread holding the lock inside an operation (not through a kept handle) can always move *)
+Lemma holder_in_op_enabled_l cf progs s a la c : R cf progs s -> nth_error (thr s) a = Some la ->
+  (1 <= pcx cf (at_ la) + pcs cf (at_ la))%nat -> enabledW cf s a c.
+Proof.
+  intros HR Ha Hp. destruct (R_inv _ _ _ HR) as [H1 _]. destruct (I_ok _ _ _ H1 _ _ Ha) as [Hlen Hpc].
+  assert (exists r, tstep cf a c (gl s) la = Some r) as [r Hr]; [|exists la, r; auto].
+  destruct la as [pr p sl]. cbn [at_ slots] in *. unfold tstep. cbn [at_ slots prog].
+  destruct p; cbn in Hp; try lia.
+  - destruct Hpc as [old [Ho _]]. rewrite Ho. destruct (release _ _ _ _). eexists; reflexivity.
+  - destruct Hpc as [Hne _]. destruct code as [|i rest]; [congruence|].
+    destruct (m_thrown _); [destruct fr; eexists; reflexivity|].
+    destruct (negb (m_done _)); [eexists; reflexivity|].
+    destruct (match m_rest _ with Some c' => c' | None => rest end); destruct fr; eexists; reflexivity.
+  - destruct (wop_code cf o) as [[gsh code]|] eqn:Ew; [|congruence].
+    destruct (release _ _ _ _). eexists; reflexivity.
+Qed.
+
+(* ---------- C08: every obtained lock is released exactly once ---------- *)
+(* acquisition number i is held by: a handle in a slot, the new handle of an acquisition in progress, or a guard *)
+Definition hidc (i : nat) (x : handle) : nat := b2n (hown x && Nat.eqb (hid x) i).
+Definition pcid (i : nat) (p : pc) : nat :=
+  match p with
+  | HRelOld _ new => hidc i new
+  | Run (FGuard _ gid) _ _ _ _ | GRel _ gid _ _ => b2n (Nat.eqb gid i)
+  | _ => 0%nat
+  end.
+Definition idcnt (i : nat) (l : loc) : nat := (pcid i (at_ l) + cnt (hidc i) (slots l))%nat.
+Definition holders (i : nat) (ls : list loc) : nat := list_sum (map (idcnt i) ls).
+Definition issued (g : glob) (i : nat) : nat := b2n (Nat.leb 1 i && Nat.leb i (nacq g)).
+
+Record Inv3 (g : glob) (ls : list loc) : Prop := {
+  I_id : forall i, (holders i ls + count_occ Nat.eq_dec (released g) i = issued g i)%nat
+}.
+
+Lemma hidc_disown i x : hidc i (disown x) = 0%nat. Proof. reflexivity. Qed.
+
+(* what a step did to the acquisition ledger: nothing, issued the next id, or released id j *)
+Definition lrel (k : option (bool * nat)) (g g' : glob) : Prop :=
+  match k with
+  | None => nacq g' = nacq g /\ released g' = released g
+  | Some (true, j) => j = S (nacq g) /\ nacq g' = S (nacq g) /\ released g' = released g
+  | Some (false, j) => nacq g' = nacq g /\ released g' = j :: released g
+  end.
+Definition addid (k : option (bool * nat)) (i : nat) : nat := match k with Some (true, j) => b2n (Nat.eqb j i) | _ => 0%nat end.
+Definition subid (k : option (bool * nat)) (i : nat) : nat := match k with Some (false, j) => b2n (Nat.eqb j i) | _ => 0%nat end.
+
+Lemma Inv3_upd g ls t l g' l' k :
+  Inv3 g ls -> nth_error ls t = Some l -> lrel k g g' ->
+  (forall i, idcnt i l' + subid k i = idcnt i l + addid k i)%nat ->
+  Inv3 g' (upd ls t l').
+Proof.
+  intros HI Hl Hk Hd. constructor. intros i. pose proof (I_id _ _ HI i) as E. specialize (Hd i).
+  unfold holders in *. pose proof (sum_upd (idcnt i) ls t l l' Hl) as Es. unfold issued in *.
+  destruct k as [[[|] j]|]; cbn [lrel addid subid] in *.
+  - destruct Hk as [-> [Hn Hr]]. rewrite Hn, Hr.
+    destruct (Nat.eqb_spec (S (nacq g)) i) as [Ei|Hne]; [subst i|].
+    + (* the new id was never issued before: nobody holds it and it was not released *)
+      assert (Nat.leb 1 (S (nacq g)) && Nat.leb (S (nacq g)) (nacq g) = false) as E0.
+      { rewrite andb_false_iff. right. apply Nat.leb_gt. lia. }
+      rewrite E0 in E. rewrite Nat.leb_refl. cbn in *. lia.
+    + assert (Nat.leb i (S (nacq g)) = Nat.leb i (nacq g)) as E1.
+      { destruct (Nat.leb_spec i (nacq g)); [apply Nat.leb_le; lia|apply Nat.leb_gt; lia]. }
+      rewrite E1. cbn in *. lia.
+  - destruct Hk as [Hn Hr]. rewrite Hn, Hr. cbn [count_occ].
+    destruct (Nat.eq_dec j i) as [Ej|Hne]; [subst j|].
+    + rewrite Nat.eqb_refl in Hd. cbn in Hd. lia.
+    + destruct (Nat.eqb_spec j i); [congruence|]. cbn in Hd. lia.
+  - destruct Hk as [Hn Hr]. rewrite Hn, Hr. lia.
+Qed.
+
+Lemma acquire_ledger_true am sm t c g g' e : acquire am sm t c g = Some (g', true, e) -> lrel (Some (true, nacq g')) g g'.
+Proof. intros H. destruct (acquire_true _ _ _ _ _ _ _ H) as [_ ->]. destruct sm; cbn; auto. Qed.
+Lemma acquire_ledger_false am sm t c g g' e : acquire am sm t c g = Some (g', false, e) -> lrel None g g'.
+Proof. intros H. destruct (acquire_false _ _ _ _ _ _ _ H) as [_ ->]. cbn; auto. Qed.
+Lemma release_ledger sm t i g g' e : release sm t i g = (g', e) -> lrel (Some (false, i)) g g'.
+Proof. intros H. rewrite (release_eq _ _ _ _ _ _ H). destruct sm; cbn; auto. Qed.
+Lemma exec_mi_ledger cf t i ph r ok g : lrel None g (m_g (exec_mi cf t i ph r ok g)).
+Proof.
+  unfold exec_mi. destruct i as [fid snap| |tg s| |e d]; cbn.
+  - destruct (existsb _ _); cbn; auto.
+  - destruct ph; cbn; auto.
+  - destruct tg; destruct ph; cbn; auto.
+  - destruct ph as [|[|[|ph]]]; cbn; auto.
+  - destruct ph; cbn; auto.
+Qed.
+
+Lemma Inv3_init cf progs : Inv3 (gl (init cf progs)) (thr (init cf progs)).
+Proof.
+  constructor. intros i. unfold holders, issued, init. cbn [gl thr nacq released count_occ].
+  rewrite sum_zero.
+  - destruct i; cbn; [reflexivity|]. reflexivity.
+  - intros u x Hx. rewrite nth_error_map in Hx. destruct (nth_error progs u); inversion Hx. reflexivity.
+Qed.
+
+Lemma Inv3_step cf : forall g ls t c l g' l' es,
+  Inv1 cf g ls -> Inv3 g ls -> nth_error ls t = Some l -> tstep cf t c g l = Some (g', l', es) -> Inv3 g' (upd ls t l').
+Proof.
+  intros g ls t c l g' l' es H1 HI Hl Hs.
+  destruct (I_ok _ _ _ H1 _ _ Hl) as [Hlen Hpc].
+  destruct l as [pr p sl]. cbn [at_ slots] in *.
+  step_cases Hs; bool_hyps.
+  all: try match goal with H : acquire ABlock _ _ _ _ = Some (_, ?b, _) |- _ => pose proof (acquire_block _ _ _ _ _ _ _ H); subst b end.
+  all: try match goal with H : acquire _ _ _ _ _ = Some (_, ?b, _) |- _ => is_var b; destruct b end.
+  all: first
+    [ match goal with H : acquire _ _ _ _ _ = Some (_, true, _) |- _ =>
+        eapply (Inv3_upd _ ls t _ _ _ _ HI Hl (acquire_ledger_true _ _ _ _ _ _ _ H)) end
+    | match goal with H : acquire _ _ _ _ _ = Some (_, false, _) |- _ =>
+        eapply (Inv3_upd _ ls t _ _ _ _ HI Hl (acquire_ledger_false _ _ _ _ _ _ _ H)) end
+    | match goal with H : release _ _ _ _ = (_, _) |- _ =>
+        eapply (Inv3_upd _ ls t _ _ _ _ HI Hl (release_ledger _ _ _ _ _ _ H)) end
+    | match goal with |- context [exec_mi ?a ?b ?c ?d ?e ?f ?g0] =>
+        eapply (Inv3_upd _ ls t _ _ _ _ HI Hl (exec_mi_ledger a b c d e f g0)) end
+    | eapply (Inv3_upd _ ls t _ _ _ None HI Hl); [split; reflexivity|] ].
+  all: intros i; unfold idcnt; cbn [at_ slots pcid addid subid].
+  all: try lia.
+  all: try match goal with |- context [after_rel ?k _] => destruct k; unfold after_rel; cbn [rel_slot] in * end.
+  all: repeat match goal with
+       | H : exists _, _ |- _ => destruct H
+       | H : _ /\ _ |- _ => destruct H
+       end.
+  all: try match goal with H : slot ?sl ?s <> None |- _ => destruct (slot sl s) eqn:?; [|congruence] end.
+  all: try match goal with |- context [do_move ?sl ?s ?d] =>
+         match goal with Hs : slot sl s = Some ?x |- _ =>
+           let E1 := fresh "EM" in
+           assert (d < length sl)%nat by first [ lia | eapply slot_some_lt; eassumption ];
+           pose proof (cnt_move (hidc i) sl s d x Hs ltac:(assumption) ltac:(assumption)) as E1;
+           rewrite ?hidc_disown in *
+         end end.
+  all: repeat match goal with H : slot _ ?h = _ |- _ => rewrite H in * end.
+  all: repeat match goal with H : Some _ = Some _ |- _ => inversion H; clear H; subst end.
+  all: cnt_facts cf sl Hlen.
+  all: repeat match goal with H : slot _ ?h = _ |- _ => rewrite H in * end.
+  all: repeat match goal with |- context [cnt ?f ?l] => let C := fresh "C" in set (C := cnt f l) in * end.
+  all: unfold hidc, b2n in *; cbn [hown hsh hnn hid oh disown nulled] in *.
+  all: repeat match goal with
+       | H : ?a = true |- _ => rewrite H in *
+       | H : ?a = false |- _ => rewrite H in *
+       end; cbn [andb negb orb] in *.
+  all: try lia.
+  all: repeat match goal with
+       | |- context [if ?b then _ else _] => destruct b eqn:?
+       | H : context [if ?b then _ else _] |- _ => destruct b eqn:?
+       end; cbn [andb negb orb] in *; try lia.
+Qed.
+
+Lemma R_inv3 cf progs s : R cf progs s -> Inv3 (gl s) (thr s).
+Proof.
+  intros H.
+  assert (Inv1 cf (gl s) (thr s) /\ Inv3 (gl s) (thr s)) as [_ H3]; [|exact H3].
+  refine (reachable_inv glob loc (tstep cf) (fun g ls => Inv1 cf g ls /\ Inv3 g ls) _ _ _ _ H).
+  - intros g ls t c l g' l' es [H1 H3] Hl Hs. split; [eapply Inv1_step|eapply Inv3_step]; eauto.
+  - split; [apply Inv1_init|apply Inv3_init].
+Qed.
+
+Lemma released_exactly_once_l cf progs s i : R cf progs s ->
+  (holders i (thr s) + count_occ Nat.eq_dec (released (gl s)) i = issued (gl s) i)%nat.
+Proof. intros HR. apply (I_id _ _ (R_inv3 _ _ _ HR)). Qed.
+
+Lemma issued_le g i : (issued g i <= 1)%nat.
+Proof. unfold issued. destruct (_ && _); cbn; lia. Qed.
+Lemma never_released_twice_l cf progs s i : R cf progs s ->
+  (count_occ Nat.eq_dec (released (gl s)) i <= 1)%nat.
+Proof. intros HR. pose proof (released_exactly_once_l _ _ _ i HR). pose proof (issued_le (gl s) i). lia. Qed.
+Lemma released_when_chain_ends_l cf progs s i : R cf progs s -> (1 <= i <= nacq (gl s))%nat ->
+  (holders i (thr s) = 0%nat <-> count_occ Nat.eq_dec (released (gl s)) i = 1%nat).
+Proof.
+  intros HR [Hi1 Hi2]. pose proof (released_exactly_once_l _ _ _ i HR) as E. unfold issued in E.
+  assert (Nat.leb 1 i && Nat.leb i (nacq (gl s)) = true) as E1.
+  { apply andb_true_iff. split; apply Nat.leb_le; lia. }
+  rewrite E1 in E. cbn in E. lia.
+Qed.
+
+(* a handle that owns its lock keeps the mutex held, in its mode, for its thread *)
+Lemma handle_keeps_lock_l cf progs s t l h x : R cf progs s -> nth_error (thr s) t = Some l ->
+  slot (slots l) h = Some x -> hown x = true ->
+  if hsh x && shcap cf then (1 <= count_occ Nat.eq_dec (sharers (gl s)) t)%nat else owner (gl s) = Some t.
+Proof.
+  intros HR Hl Hx Ho. destruct (R_inv1 _ _ _ HR) as [_ IX IS _].
+  specialize (IX t). specialize (IS t). rewrite (locof_at _ _ _ Hl) in IX, IS. unfold lx, lsh, shc in *.
+  pose proof (cnt_ge (hx cf) _ _ _ Hx) as Gx. pose proof (cnt_ge (hs cf) _ _ _ Hx) as Gs.
+  unfold hx at 1 in Gx. unfold hs at 1 in Gs. rewrite Ho in Gx, Gs. cbn [andb] in Gx, Gs.
+  destruct (hsh x && shcap cf); cbn in Gx, Gs; [lia|]. apply own1_pos. lia.
+Qed.
+(* the handles of a thread are changed only by that thread's own steps *)
+Lemma other_steps_keep_handles (cf : config) (s : sysW) t u c : u <> t ->
+  nth_error (thr (step glob loc (tstep cf) s (u, c))) t = nth_error (thr s) t.
+Proof.
+  intros Hne. unfold step, sys_step. destruct (nth_error (thr s) u) as [l|]; [|reflexivity].
+  destruct (tstep cf u c (gl s) l) as [[[g' l'] es]|]; [|reflexivity]. cbn. apply nth_upd_ne. exact Hne.
+Qed.
+
+(* try / timed / blocking acquisition with locking enabled: the handle is non-null exactly when its lock
+   object owns, and it owns exactly when the mutex was obtainable at that step *)
+Lemma try_null_iff_l cf t c g l g' l' es h am sh :
+  at_ l = HAcq h am sh -> tstep cf t c g l = Some (g', l', es) ->
+  exists new, hsh new = sh /\ hnn new = hown new /\ hown new = obtainable (sh && shcap cf) g /\
+    ((at_ l' = HRelOld h new /\ slots l' = slots l) \/
+     (at_ l' = Idle /\ slots l' = upd (slots l) h (Some new) /\ In (ret_ev (b2z (hnn new))) es)).
+Proof.
+  intros Hp Hs. destruct l as [pr p sl]. cbn [at_ slots] in *. subst p.
+  unfold tstep in Hs. cbn [at_ slots prog] in Hs.
+  destruct (acquire am (sh && shcap cf) t c g) as [[[g1 okk] e]|] eqn:A; [|discriminate].
+  assert (okk = obtainable (sh && shcap cf) g) as Eo.
+  { destruct okk; [destruct (acquire_true _ _ _ _ _ _ _ A)|destruct (acquire_false _ _ _ _ _ _ _ A)]; congruence. }
+  exists (H sh okk okk (if okk then nacq g1 else 0%nat)). cbn [hsh hnn hown].
+  repeat split; [exact Eo|].
+  destruct (slot sl h) as [old|]; [destruct (hown old)|]; inversion Hs; subst; cbn [at_ slots].
+  - left. auto.
+  - right. repeat split. cbn. auto.
+  - right. repeat split. cbn. auto.
+Qed.
+
+(* a try / timed acquisition can always complete: it is enabled under the time-out choice *)
+Lemma timed_never_stuck_l cf t g pr sl h am sh : am <> ABlock ->
+  exists r, tstep cf t 2 g (Loc pr (HAcq h am sh) sl) = Some r.
+Proof.
+  intros Ham. unfold tstep. cbn [at_ slots prog].
+  assert (exists x, acquire am (sh && shcap cf) t 2 g = Some x) as [[[g1 okk] e] ->].
+  { unfold acquire. destruct am; [congruence| |]; rewrite ?orb_true_r; eexists; reflexivity. }
+  destruct (slot sl h) as [old|]; [destruct (hown old)|]; eexists; reflexivity.
+Qed.
+Lemma try_always_enabled_l cf t c g pr sl h sh :
+  exists r, tstep cf t c g (Loc pr (HAcq h ATry sh) sl) = Some r.
+Proof.
+  unfold tstep. cbn [at_ slots prog]. unfold acquire.
+  destruct (slot sl h) as [old|]; [destruct (hown old)|]; eexists; reflexivity.
+Qed.
+
+(* after unlock() the handle is null and owns nothing *)
+Lemma unlock_nulls_l cf t c g l g' l' es h :
+  (at_ l = Idle /\ exists pr, prog l = Unlock h :: pr) \/ at_ l = HRel (RUnlock h) ->
+  tstep cf t c g l = Some (g', l', es) -> In (ret_ev 0) es ->
+  exists x, slot (slots l') h = Some x /\ hnn x = false /\ hown x = false.
+Proof.
+  intros Hp Hs Hret. destruct l as [pr p sl]. cbn [at_ slots prog] in *.
+  destruct Hp as [[-> [pr' ->]]| ->]; unfold tstep in Hs; cbn [at_ slots prog rel_slot] in Hs.
+  - destruct (slot sl h) as [x|] eqn:Ex.
+    + destruct (hown x); inversion Hs; subst; cbn in Hret.
+      * destruct Hret as [Hr|[]]. discriminate.
+      * cbn [slots]. exists (nulled x). rewrite slot_upd_eq by (eapply slot_some_lt; eauto). auto.
+    + inversion Hs; subst. cbn in Hret. destruct Hret as [Hr|[Hr|[]]]; discriminate.
+  - destruct (slot sl h) as [x|] eqn:Ex; [|discriminate].
+    destruct (release _ _ _ _) as [g1 e]. inversion Hs; subst. cbn [slots]. unfold after_rel. rewrite Ex.
+    exists (nulled x). rewrite slot_upd_eq by (eapply slot_some_lt; eauto). auto.
+Qed.
+
+(* ---------- C08: locking disabled at construction ---------- *)
+Definition noown (sl : list (option handle)) : Prop := forall h x, slot sl h = Some x -> hown x = false.
+Lemma noown_upd sl h y : noown sl -> (forall x, y = Some x -> hown x = false) -> noown (upd sl h y).
+Proof.
+  intros Hn Hy k x Hk. destruct (Nat.eq_dec h k) as [->|Hne].
+  - destruct (Nat.lt_ge_cases k (length sl)) as [Hl|Hl].
+    + rewrite slot_upd_eq in Hk by exact Hl. auto.
+    + apply slot_some_lt in Hk. rewrite upd_length in Hk. lia.
+  - rewrite slot_upd_ne in Hk by exact Hne. eauto.
+Qed.
+Lemma noown_move sl src dst : noown sl -> noown (do_move sl src dst).
+Proof.
+  intros Hn. unfold do_move. destruct (slot sl src) as [x|] eqn:Ex; [|exact Hn].
+  apply noown_upd; [apply noown_upd; [exact Hn|]|]; intros y Hy; inversion Hy; subst; [eauto|reflexivity].
+Qed.
+
+Lemma noown_step cf t c g l g' l' es : locking cf = false -> locok cf l -> noown (slots l) ->
+  tstep cf t c g l = Some (g', l', es) -> noown (slots l').
+Proof.
+  intros Hlk [Hlen Hpc] Hn Hs. destruct l as [pr p sl]. cbn [at_ slots] in *.
+  step_cases Hs; cbn [slots]; try exact Hn.
+  all: repeat match goal with
+       | H : exists _, _ |- _ => destruct H
+       | H : _ /\ _ |- _ => destruct H
+       end; try congruence.
+  all: repeat match goal with H : Some _ = Some _ |- _ => inversion H; clear H; subst end.
+  all: try (apply noown_move; exact Hn).
+  all: try (apply noown_upd; [exact Hn|intros y Hy; inversion Hy; subst; reflexivity]).
+  all: try (apply noown_upd; [exact Hn|discriminate]).
+  all: try match goal with Ho : slot _ _ = Some ?o, Hw : hown ?o = true |- _ => rewrite (Hn _ _ Ho) in Hw; discriminate end.
+Qed.
+
+Lemma noown_init cf progs u l : nth_error (thr (init cf progs)) u = Some l -> noown (slots l).
+Proof.
+  unfold init. cbn [thr]. rewrite nth_error_map. destruct (nth_error progs u) as [p|]; cbn [option_map]; intros H.
+  - injection H as <-. cbn [slots]. intros h x Hx. unfold slot, NSLOTS in Hx.
+    destruct h as [|[|[|h]]]; cbn in Hx; try discriminate. destruct h; discriminate.
+  - discriminate.
+Qed.
+
+Definition no_mutex_pc (p : pc) : Prop :=
+  match p with HAcq _ _ _ | HRelOld _ _ | HRel _ => False | _ => True end.
+
+(* with locking disabled no handle ever owns a lock, and no thread is ever inside a handle operation
+   that touches the mutex or waits: handle operations complete in their invocation step *)
+Lemma disabled_never_locks_l cf progs s t l : R cf progs s -> locking cf = false ->
+  nth_error (thr s) t = Some l -> noown (slots l) /\ no_mutex_pc (at_ l).
+Proof.
+  intros HR Hlk Hl.
+  assert (HI : Inv1 cf (gl s) (thr s) /\ forall u lu, nth_error (thr s) u = Some lu -> noown (slots lu)).
+  { refine (reachable_inv glob loc (tstep cf)
+              (fun g ls => Inv1 cf g ls /\ forall u lu, nth_error ls u = Some lu -> noown (slots lu)) _ _ _ _ HR).
+    - intros g ls t0 c l0 g' l' es [H1 Hn] Hl0 Hs. split; [eapply Inv1_step; eauto|].
+      intros u lu Hu. destruct (nth_upd _ _ _ _ _ Hu) as [[-> [-> _]]|[_ Hu']]; [|eauto].
+      eapply noown_step; eauto. eapply I_ok; eauto.
+    - split; [apply Inv1_init|]. intros u lu. apply noown_init. }
+  destruct HI as [H1 Hn]. split; [eauto|].
+  destruct (I_ok _ _ _ H1 _ _ Hl) as [_ Hpc]. specialize (Hn _ _ Hl).
+  destruct (at_ l); cbn; auto.
+  - destruct Hpc as [_ Hk]. congruence.
+  - destruct Hpc as [old [Ho Hw]]. rewrite (Hn _ _ Ho) in Hw. discriminate.
+  - destruct Hpc as [[old [Ho Hw]] _]. rewrite (Hn _ _ Ho) in Hw. discriminate.
+Qed.
+
+(* ... and every acquisition is enabled in every state, returns a non-null handle at once and emits no mutex operation *)
+Lemma disabled_acquire_l cf t c g pr sl o h am sh : locking cf = false -> noown sl ->
+  acq_of cf o = Some (h, am, sh) -> (h < NSLOTS)%nat ->
+  tstep cf t c g (Loc (o :: pr) Idle sl) =
+  Some (g, Loc pr Idle (upd sl h (Some (H sh true false 0))), [inv_ev o; ret_ev 1]).
+Proof.
+  intros Hlk Hn Ha Hh. unfold tstep. cbn [at_ prog slots].
+  assert (in_range h = true) as Hr by (apply in_range_lt; exact Hh).
+  assert (Hold : forall old, slot sl h = Some old -> hown old = false) by (intros old Ho; eapply Hn; eauto).
+  destruct o; cbn in Ha; try discriminate; rewrite Ha, Hr, Hlk; cbn [negb];
+    (destruct (slot sl h) as [old|] eqn:Eo; [rewrite (Hold old eq_refl)|]; reflexivity).
+Qed.
